@@ -103,8 +103,8 @@ class DiscoverSubcircuits(UsedQubitIndicesVisitor):
         # far too inflexible for the purposes here.
         indices = defaultdict(set)
 
-        count = len(self.subcircuits)
-        had_started = self.current is not None
+        # The subcircuit (if any) that is open when this block begins
+        entry_trace = self.current
 
         # XXX: using a trace restriction here is untested
         for n, stmt in self.trace_statements(block.statements):
@@ -112,7 +112,9 @@ class DiscoverSubcircuits(UsedQubitIndicesVisitor):
                 indices, self.visit(stmt, context=context), disjoint=block.parallel
             )
 
-        if had_started and (reps > 1) and (len(self.subcircuits) != count):
+        # A repeating loop may not close a subcircuit that was opened before
+        # its body began (a prepare_all in the body discards that one instead).
+        if (reps > 1) and (entry_trace is not None) and (entry_trace.end is not None):
             raise JaqalError("measure_all -> prepare_all not supported in loops")
 
         return indices
